@@ -292,6 +292,7 @@ def readonly_part(rep, tier):
     paths = 0
     bad = []
     dim_hits = []
+    by_name = {}
     for case in cases:
         try:
             r = case.build()
@@ -315,6 +316,12 @@ def readonly_part(rep, tier):
             for a in frozen:
                 a.flags.writeable = True
             dims_of_case(rep, case, r, ps, dim_hits)
+            for vn, md in r.comp._var_rel2meta.items():
+                base = vn
+                for s_ in getattr(r.comp.options, "_dict", {}).get("surfaces", {}).get("val", None) or []:
+                    if isinstance(s_, dict) and base.startswith(s_.get("name", "\0") + "_"):
+                        base = base[len(s_["name"]) + 1:]
+                by_name.setdefault(base, []).append((md.get("units"), vn in r.in_names, case, vn))
         except ValueError as e:
             if "read-only" in str(e):
                 bad.append((case.name, str(e)))
@@ -343,6 +350,23 @@ def readonly_part(rep, tier):
     rep.counts["obligations"] += n
     rep.counts["discharged"] += n - len(bad)
     rep.log("read-only option arrays: %d component cases, %d paths, %d writes" % (n, paths, len(bad)))
+    # one name, one kind of quantity: a variable that carries units in one component does not appear without units as the
+    # input of another (the same names are connected by promotion all over the library)
+    for base, occ in sorted(by_name.items()):
+        united = [o for o in occ if o[0] is not None]
+        bare = [o for o in occ if o[0] is None and o[1]]
+        if united and bare:
+            from symoas import dims as _dims
+
+            if len({_dims.unit_dim(o[0]) for o in united}) == 1 and _dims.unit_dim(united[0][0]) not in ((), None):
+                done_ = set()
+                for (_, _, case_, vn_) in bare:
+                    cls_ = case_.name.split("[")[0]
+                    if cls_ in done_:
+                        continue
+                    done_.add(cls_)
+                    dim_hits.append((case_.name, cls_, "input %s is declared without units, %s carries %s in %d other component(s)" % (vn_, base, united[0][0], len({o[2].name.split('[')[0] for o in united})),
+                                     {"factory": case_.factory, "cfg": dict(case_.cfg), "var": vn_, "unit": united[0][0], "case": case_.name, "kind": "name"}))
     # dimensional analysis of the same executions
     confirmed = 0
     seen = set()
@@ -355,7 +379,8 @@ def readonly_part(rep, tier):
         ok, what = replay_dimension(spec)
         if ok:
             confirmed += 1
-            rep.violation("units: %s adds quantities of different declared dimension" % comp_cls, msg + " :: " + what, {"case": cname, "dims": True, "spec": {k: v for k, v in spec.items() if k != "factory"}})
+            fam_ = ("units: %s takes an input without units that carries units everywhere else" if spec.get("kind") == "name" else "units: %s adds quantities of different declared dimension") % comp_cls
+            rep.violation(fam_, msg + " :: " + what, {"case": cname, "dims": True, "spec": {k: v for k, v in spec.items() if k != "factory"}})
         else:
             rep.not_reproduced.append({"id": "dimension conflict in %s" % cname, "why": msg + " :: " + what})
     rep.counts["obligations"] += n
